@@ -17,6 +17,7 @@ each once, delivered to a consumer that declines at its k-th item; a server page
 below the client's page size fails the first request. -/
 def drive : List String → String
   | "held" :: _ => "skip"
+  | "refserr" :: _ => "skip"   -- a backend whose referrers listing fails part-way: complete or an error, judged by the oracle
   | "refs" :: _ => "skip"   -- referrers through the stacks: judged by the oracle against what was pushed
   | "big" :: _ => "skip"    -- ten thousand and more items through the wire: compared with the direct listing by the oracle   -- a listing obtained, the registry changed, the listing then consumed: judged by the oracle
   | what :: stack :: ps :: mx :: _omit :: k :: start :: n :: rest =>
